@@ -11,7 +11,7 @@ Local Open Scope string_scope.
 Theorem C05_exactly_the_designated_subdocument : forall E ref kind toks s' data s'' v,
   resolve_finish E ref kind toks s' data = Done (s'', v) ->
   exists res m, res = JObj m /\ (if String.eqb ref "" then Some data else ptr_get toks data) = Some res
-                /\ norm E res (TNamed kind) = ROk v.
+                /\ norm E false res (TNamed kind) = ROk v.
 Proof. exact resolve_finish_done. Qed.
 Print Assumptions C05_exactly_the_designated_subdocument.
 
